@@ -12,7 +12,7 @@ from vlib.core import PropertyViolation
 
 ID = 'C16'
 LEVEL = 'exploration'
-BUDGET = {'quick': 800, 'thorough': 3000}
+BUDGET = {'quick': 1600, 'thorough': 4000}
 RULE = ('Hypothesis-generated file trees (<= 25 nodes, depth <= 4; names with blanks, inner dots, several '
         'extensions incl. none and double ones, upper case, non-ASCII; empty directories; equal stems with '
         'different extensions; a directory whose name has an extension) materialised in a fresh temporary '
@@ -23,7 +23,9 @@ RULE = ('Hypothesis-generated file trees (<= 25 nodes, depth <= 4; names with bl
         'independent os.walk reference producing, per call, the list of (key, rule, file) productions; required '
         'keys present with handles built from (file path, *args, **kwargs), prefixes are sub-maps, nothing '
         'else reachable in any layer, conflict rules (all layers retrievable with nesting, replacement '
-        'without, newest call visible), ValueError for a rule path that is a regular file. Non-trivial = a '
+        'without, newest call visible), ValueError for a rule path that is a regular file - after which the '
+        'offending file is removed and the SAME populator is used again on a fresh map (options of the rejected '
+        'call must not linger). Non-trivial = a '
         'file at depth >= 2 under a rule with a non-empty extension filter, or a key conflict, or a rule '
         'pointing at a regular file. Distinct = sha1 of canonical JSON.')
 ASSUMPTIONS = [
@@ -167,7 +169,11 @@ def _run(case, tmp, facts):
     productions = collections.defaultdict(list)     # key -> [(call_ix, rule_ix, normalised path)]
     allowed_dirs = set()
     nest_modes = []
-    for ci, call in enumerate(case['calls']):
+    calls = list(case['calls'])
+    ci = -1
+    while ci + 1 < len(calls):
+        ci += 1
+        call = calls[ci]
         nest = case['ctor']['nest'] if call['nest'] is None else call['nest']
         trim = case['ctor']['trim'] if call['trim'] is None else call['trim']
         nest_modes.append(nest)
@@ -209,7 +215,27 @@ def _run(case, tmp, facts):
             if not expect_error:
                 viol('population_raised_ValueError_without_a_regular_file_rule_path', exception=repr(exc))
             facts['valueerror_for_regular_file_rule'] += 1
-            return info(facts, case)
+            if facts['valueerror_for_regular_file_rule'] > 1:
+                return info(facts, case)
+            # The rejection is documented behaviour: the program repairs the tree (the offending file goes away,
+            # the rule path is missing now and skipped) and populates again with the SAME populator.  What the
+            # rejected call left in the map is not specified, so a fresh map is used from here on; the options
+            # given to the rejected call must not linger.
+            for r in rules:
+                f = pt.join(root, r['rel'])
+                if pt.isfile(f):
+                    os.remove(f)
+                    if f in files:
+                        files.remove(f)
+            rmap = desper.ResourceMap()
+            pre_handle = None
+            productions.clear()
+            allowed_dirs.clear()
+            del nest_modes[:]
+            # the very next call relies on the construction-time options
+            calls.insert(ci + 1, {'nest': None, 'trim': None})
+            facts['population_after_a_rejected_call'] += 1
+            continue
         except Exception as exc:
             if expect_error:
                 viol('rule_path_that_is_a_regular_file_must_be_rejected_with_ValueError', exception=repr(exc))
@@ -233,7 +259,7 @@ def _run(case, tmp, facts):
         eligible = [f for f in files
                     if not any(s != f and pt.dirname(s) == pt.dirname(f)
                                and pt.splitext(pt.basename(s))[0] == pt.basename(f) for s in files)]
-        if morph % 3 == 0 and eligible and ci + 1 < len(case['calls']):
+        if morph % 3 == 0 and eligible and ci + 1 < len(calls):
             f = eligible[morph % len(eligible)]
             files.remove(f)
             os.remove(f)
